@@ -235,23 +235,27 @@ Definition wrap_leaf (lt : ltype) (l : leaf) : leaf * bool :=
   | LPlain shp => (LLie (Some lt) shp, negb (last_is shp (dimension lt)))
   | _ => (l, false)
   end.
-(* name = func.__name__ if it has one; pos_ltypes = ltypes of the LieTensors among the flattened
-   POSITIONAL arguments, in order (keyword arguments are not looked at) *)
-Definition torch_function (name : option string) (data : option (list leaf)) (pos_ltypes : list ltype) : tf_result :=
+(* name = func.__name__ if it has one; pos_ltypes / kw_ltypes = ltypes of the LieTensors among the
+   flattened positional / keyword arguments, in order: the code flattens (args, kwargs) and takes the
+   first LieTensor's ltype *)
+Definition torch_function (name : option string) (data : option (list leaf)) (pos_ltypes kw_ltypes : list ltype) : tf_result :=
   match data with
   | None => TFNone
   | Some leaves =>
       match name with
       | Some n =>
           if handled n then
-            match pos_ltypes with
-            | [] => TFIndexError
+            match pos_ltypes ++ kw_ltypes with
+            | [] => TFIndexError      (* unreachable through dispatch: some argument is a LieTensor *)
             | lt :: _ => let r := map (wrap_leaf lt) leaves in TFData (map fst r) (map snd r)
             end
           else TFData leaves (map (fun _ => false) leaves)
       | None => TFData leaves (map (fun _ => false) leaves)
       end
   end.
+(* before fix 613c139: tree_flatten(args) -- keyword arguments were not looked at *)
+Definition torch_function_old (name : option string) (data : option (list leaf)) (pos_ltypes kw_ltypes : list ltype) : tf_result :=
+  torch_function name data pos_ltypes [].
 
 (* ================= evaluators used by the correspondence check (vm_compute) ================= *)
 (* index map of the two-argument broadcast for a pair of lshapes: operands hold their own flat
@@ -311,10 +315,10 @@ Definition tf_eqb (a b : tf_result) : bool :=
       (length l =? length l') && forallb (fun p => leaf_eqb (fst p) (snd p)) (combine l l')
       && (length w =? length w') && forallb (fun p => Bool.eqb (fst p) (snd p)) (combine w w')
   | _, _ => false end.
-Definition tf_case := (nat * option string * option (list leaf) * list ltype * tf_result)%type.
+Definition tf_case := (nat * option string * option (list leaf) * list ltype * list ltype * tf_result)%type.
 Definition tf_bad (cs : list tf_case) : list nat :=
-  map (fun c => match c with (i, _, _, _, _) => i end)
-      (filter (fun c => match c with (_, n, d, lts, r) => negb (tf_eqb (torch_function n d lts) r) end) cs).
+  map (fun c => match c with (i, _, _, _, _, _) => i end)
+      (filter (fun c => match c with (_, n, d, lts, kws, r) => negb (tf_eqb (torch_function n d lts kws) r) end) cs).
 
 (* documented result type of every operation: (index, group, op, observed ltype code or None = Tensor);
    codes 0 SO3 1 SE3 2 RxSO3 3 Sim3 4 so3 5 se3 6 rxso3 7 sim3 *)
